@@ -6,12 +6,19 @@ the Henry-continued piecewise-linear interpolant).  Tie: translator (closed form
 against Python), correspondence of Model/SpreadPoint.lean (ℚ, logarithms as inputs) with the real method.
 Failing-input search: spreading pressures of the real classes against an independent quadrature of the
 class's own loading()/x, history variations, unit arguments.
+
+Section 2b anchors the quad-based models (Toth, Jensen-Seaton, DR, DA) AT THE ORIGIN: Π(p) against ∫_{-∞}^{ln p} n(e^u) du of the
+class's own loading (Props/C11/Origin0.lean: change of variables, uniqueness of the origin-anchored primitive, sign of a primitive
+anchored elsewhere, DA at m = 1 in closed form), over the parameter box including its corners, down to p = 1e-300 (non-negative,
+non-decreasing, -> 0).  Section 3b runs point isotherms with closely spaced / very small pressures in every pressure unit and mode,
+queries a hair above/below/at each knot, in every unit/mode of the query (Props/C11/Scale.lean: the fold is invariant under a change
+of pressure unit, continuous across the knots) against the exact-rational fold and an exact-rational reference.
 """
 import math
 from fractions import Fraction as Fr
 
 from pgv.core import close, err_class, frac, import_pygaps, qstr
-from pgv.models import REL_ONLY, bits, make, p_grid, relerr, sample_params, unbits
+from pgv.models import R_GAS, REL_ONLY, bits, logu, make, p_grid, relerr, sample_params, unbits
 
 # Gauss-Legendre nodes/weights (order 20) on [-1, 1]
 _GL = None
@@ -25,11 +32,9 @@ def gl():
     return _GL
 
 
-def ref_integral(f, a, b, panels=8):
-    """∫_a^b f(x)/x dx by the substitution x = e^u (no singular weight), composite Gauss-Legendre."""
+def _gl_panels(f, la, lb, panels):
     import numpy as np
     xs, ws = gl()
-    la, lb = math.log(a), math.log(b)
     tot = 0.0
     for k in range(panels):
         u0 = la + (lb - la) * k / panels
@@ -37,6 +42,154 @@ def ref_integral(f, a, b, panels=8):
         u = 0.5 * (u1 - u0) * xs + 0.5 * (u1 + u0)
         tot += 0.5 * (u1 - u0) * float(np.sum(ws * np.array([f(float(math.exp(t))) for t in u])))
     return tot
+
+
+def ref_integral(f, a, b, panels=8):
+    """∫_a^b f(x)/x dx by the substitution x = e^u (no singular weight), composite Gauss-Legendre; the number of panels is doubled until two
+    successive values agree to 1e-10 (the tightest tolerance it serves is 1e-8; a pole of n just above b — BET/GAB close to 1/N, 1/K — needs more than the starting number: with a fixed
+    16 panels the reference, not the library, was off by 5e-8 at p = 0.937/N and the check raised a false alarm)."""
+    la, lb = math.log(a), math.log(b)
+    val = _gl_panels(f, la, lb, panels)
+    while panels < 512:
+        panels *= 2
+        nxt = _gl_panels(f, la, lb, panels)
+        if abs(nxt - val) <= 1e-10 * abs(nxt):
+            return nxt
+        val = nxt
+    return val
+
+
+def ref_from_origin(f, p, w0=1.5, grow=1.3, umin=-740.0):
+    """∫_0^p f(x)/x dx = ∫_{-∞}^{ln p} f(e^u) du (Props/C11/Origin0.lean `integral_div_eq_integral_comp_exp`): Gauss-Legendre panels going
+    DOWN from ln p with geometrically growing widths until they no longer contribute (f increasing: the contributions decrease) or e^u underflows."""
+    import numpy as np
+    xs, ws = gl()
+    top = math.log(p)
+    tot, w, small = 0.0, w0, 0
+    while top > umin:
+        lo = max(top - w, umin)
+        u = 0.5 * (top - lo) * xs + 0.5 * (top + lo)
+        c = 0.5 * (top - lo) * float(np.sum(ws * np.array([f(float(math.exp(t))) for t in u])))
+        tot += c
+        if abs(c) <= 1e-17 * abs(tot):
+            small += 1
+            if small >= 2:
+                break
+        else:
+            small = 0
+        top, w = lo, w * grow
+    return tot
+
+
+def corner_params(name, rng):
+    """Parameter vectors of the quad-based models over the whole box, with weight on the corners where the low-pressure tail of n/p carries
+    the integral (Toth/Jensen-Seaton: small heterogeneity exponent; DR/DA: small RT/e, exponent at and near its lower bound 1, at its upper bound 3).
+    Returns (params, temperature)."""
+    par = sample_params(name, rng)
+    temp = 300.0
+    r = rng.random()
+    if name == "Toth":
+        if r < 0.4:
+            par["t"] = logu(rng, 0.1, 0.3)
+        elif r < 0.5:
+            par["t"] = rng.choice([0.1, 1.0, 4.0])
+    elif name == "JensenSeaton":
+        if r < 0.4:
+            par["c"] = logu(rng, 0.1, 0.3)
+        elif r < 0.5:
+            par["c"] = rng.choice([0.1, 1.0, 4.0])
+    else:
+        # a = RT/e in [A_MIN, 3].  TODO(candidate defect, reported): for small a the unchanged DR/DA.spreading_pressure (scipy quad of a p^(a-1)-like
+        # integrand at default settings; it emits IntegrationWarning and returns its estimate) is wrong far beyond the S37 envelope — e.g. N2 at
+        # 77.355 K, DA(n_m=10, e=22000, m=3), a = 0.029: Π(0.5) = 386.7 vs 298.5 by the closed form n_m/(a m) Γ(1/m) Q(1/m, (a|ln p|)^m); DR(e=25000): 1 % off;
+        # for a < 0.01 up to a factor 3.  That region stays out of the generator until the library is repaired (known finding S37 is its mild end).
+        # (Also: below a ≈ 0.05 the tail of ∫ n(e^u) du beyond the underflow of e^u is no longer negligible for m ≈ 1, so `ref_from_origin` would need
+        # an analytic tail there.)
+        temp = rng.uniform(77.0, 400.0)
+        a = A_MIN if r < 0.15 else logu(rng, A_MIN, 3.0)
+        par["e"] = R_GAS * temp / a
+        if name == "DA":
+            r2 = rng.random()
+            if r2 < 0.2:
+                par["m"] = 1.0
+            elif r2 < 0.4:
+                par["m"] = 1.0 + logu(rng, 1e-6, 0.3)
+            elif r2 < 0.5:
+                par["m"] = 3.0
+    return par, temp
+
+
+A_MIN = 0.083     # = R·300 K / 3e4 J/mol, the lower edge of the box of pgv.models.sample_params
+
+# pressure units (Pa per unit) — the harness's own table, independent of pygaps.units
+P_UNITS = {"Pa": 1.0, "kPa": 1e3, "MPa": 1e6, "mbar": 100.0, "bar": 1e5, "atm": 101325.0, "mmHg": 133.322, "torr": 133.322}
+REPS = [("absolute", u) for u in P_UNITS] + [("relative", None), ("relative%", None)]
+
+
+def rep_factor(rep, p0_pa):
+    """Pa per 1 unit of the representation `rep` = (mode, unit)."""
+    mode, unit = rep
+    if mode == "absolute":
+        return P_UNITS[unit]
+    return p0_pa if mode == "relative" else p0_pa / 100.0
+
+
+def smooth_loading(rng):
+    """A smooth increasing isotherm (Langmuir + power law) in terms of the reduced pressure x = p / p_scale."""
+    a, k, b, c = rng.uniform(0.5, 8), logu(rng, 0.05, 50), rng.uniform(0.0, 2), rng.uniform(0.2, 1.0)
+    return lambda x: a * k * x / (1 + k * x) + b * x ** c
+
+
+def dense_pressures(rng):
+    """Strictly increasing positive pressures: over many decades, very small (1e-9 … 1e-3), and with closely spaced neighbours
+    (relative spacing 1e-9 … 1e-3, absolute spacing 1e-10 … 1e-8)."""
+    n = rng.randint(2, 10)
+    style = rng.choice(["wide", "tiny", "cluster", "cluster"])
+    if style == "tiny":
+        lo = rng.uniform(-9, -6)
+        ps = [10 ** rng.uniform(lo, lo + rng.uniform(0.5, 3)) for _ in range(n)]
+    else:
+        lo = rng.uniform(-9, -1)
+        ps = [10 ** rng.uniform(lo, lo + rng.uniform(1, 6)) for _ in range(n)]
+    if style == "cluster":
+        for p in rng.sample(ps, min(len(ps), rng.randint(1, 3))):
+            ps.append(p * (1 + logu(rng, 1e-9, 1e-3)) if rng.random() < 0.6 else p + logu(rng, 1e-10, 1e-8))
+    return sorted({float(p) for p in ps if p > 0})
+
+
+def exact_ref(ps, ls, q):
+    """∫_0^q (piecewise-linear interpolant, Henry's law below the first point)/p dp in exact rational arithmetic; the logarithm of each
+    segment as log1p of the (exact) relative step, which keeps its relative accuracy for closely spaced points."""
+    fp, fl, fq = [frac(p) for p in ps], [frac(l) for l in ls], frac(q)
+    if fq <= fp[0]:
+        return float(fl[0] / fp[0] * fq)
+    area = fl[0]
+    for i in range(len(fp) - 1):
+        lo, hi = fp[i], min(fp[i + 1], fq)
+        if hi <= lo:
+            break
+        slope = (fl[i + 1] - fl[i]) / (fp[i + 1] - fp[i])
+        area += slope * (hi - lo) + (fl[i] - slope * fp[i]) * frac(math.log1p(float((hi - lo) / lo)))
+    return float(area)
+
+
+def interp_exact(fp, fl, fq):
+    """value of the interpolant at fq (exact rational): Henry's law below the first knot, the chord of the segment (a, b] that contains fq"""
+    if fq <= fp[0]:
+        return fl[0] / fp[0] * fq
+    j = max(jj for jj in range(len(fp)) if fp[jj] < fq)
+    j = min(j, len(fp) - 2)
+    return fl[j] + (fl[j + 1] - fl[j]) / (fp[j + 1] - fp[j]) * (fq - fp[j])
+
+
+def fold_request(ps, ls, q):
+    """request line for Drv/SpreadPoint.lean (`sp`): exact rationals of the doubles, logarithms as the doubles Python computes"""
+    fp, fl, fq = [frac(p) for p in ps], [frac(l) for l in ls], frac(q)
+    k = sum(1 for p in fp if p < fq)
+    lq = fl[0] if k == 0 else interp_exact(fp, fl, fq)
+    logs = [frac(math.log(ps[t + 1] / ps[t])) for t in range(len(ps) - 1)]
+    lg = frac(math.log(q / ps[k - 1])) if k > 0 else Fr(0)
+    return "sp [%s] [%s] [%s] %s %s %s" % (";".join(map(qstr, fp)), ";".join(map(qstr, fl)), ";".join(map(qstr, logs)), qstr(fq), qstr(lq), qstr(lg)), k
 
 
 SPREAD = ["Henry", "Langmuir", "DSLangmuir", "TSLangmuir", "Quadratic", "BET", "GAB", "TemkinApprox", "Freundlich",
@@ -85,7 +238,22 @@ def run(ck):
     ck.cov["translator_cases"] = len(lines)
 
     # ------------------------------------------------------------------ 2. models: Π against the quadrature of the class's own loading/x
+    import warnings as _warnings
+    from scipy.integrate import IntegrationWarning
     worst = {}
+    suppressed = []
+
+    def quad_nonconvergence(name, sig, detail, dev, scale):
+        """The library's own quad call reported (IntegrationWarning) that it did not converge and the value is off by `dev`.  Inside the envelope
+        measured on the unchanged tree (<= 9e-4 Π(1) for DA, 7e-5 Π(1) for DR over the box a = RT/e >= 0.083) this is the known finding S37 (DA).
+        DR shows the same behaviour near a = RT/e = 0.085 (increments off by up to 2.2e-3 relative, always with the warning): known finding S37b.
+        A deviation without the warning, or outside the envelope, is not covered by either entry."""
+        if dev > 3e-3 * scale:
+            return False
+        if len(suppressed) < 20:
+            suppressed.append({"model": name, **detail, "deviation": dev})
+        ck.fail_case({**sig, "clause": "additive/integral", "quad": "IntegrationWarning"}, detail)
+        return True
     for name in SPREAD:
         for iv in range(nvec):
             par = sample_params(name, rng)
@@ -97,12 +265,14 @@ def run(ck):
             tol = 1e-4 if name in QUADBASED else 1e-8
             prev = None
             for p in ps[1::2][:4]:
-                with np.errstate(all="ignore"):
+                with np.errstate(all="ignore"), _warnings.catch_warnings(record=True) as wlist:
+                    _warnings.simplefilter("always")
                     try:
                         sp = float(m.spreading_pressure(np.float64(p)))
                     except Exception as e:  # noqa
                         ck.fail_case({**sig, "clause": "evaluates"}, {"params": par, "p": p, "error": repr(e)})
                         continue
+                warned = any(isinstance(w.message, IntegrationWarning) for w in wlist)
                 ck.count(("model", name, p, tuple(par.values())), bucket="integral:" + name,
                          sample={"model": name, "params": par, "p": p, "spreading_pressure": sp} if iv == 0 and prev is None else None)
                 if name in REL_ONLY:
@@ -112,7 +282,9 @@ def run(ck):
                         err = abs((sp - prev[1]) - ref) / max(abs(ref), 1e-300)
                         worst[name] = max(worst.get(name, 0), err)
                         if err > 10 * tol:
-                            ck.fail_case({**sig, "clause": "additive/integral"}, {"params": par, "a": prev[0], "b": p, "got": sp - prev[1], "reference": ref})
+                            det = {"params": par, "a": prev[0], "b": p, "got": sp - prev[1], "reference": ref}
+                            if not ((warned or prev[2]) and name in ("DR", "DA") and quad_nonconvergence(name, sig, det, abs((sp - prev[1]) - ref), ref_from_origin(f, 1.0))):
+                                ck.fail_case({**sig, "clause": "additive/integral"}, det)
                 else:
                     # ∫_0^lo n/x ≈ n(lo) for the Henry-like start (Freundlich: m·n(lo))
                     head = f(lo) * (par["m"] if name == "Freundlich" else 1.0)
@@ -128,11 +300,13 @@ def run(ck):
                             ck.fail_case({**sig, "clause": "integral"}, {"params": par, "p": p, "got": sp, "reference": ref})
                     if prev is not None:
                         refd = ref_integral(f, prev[0], p)
-                        if abs((sp - prev[1]) - refd) > tol * max(abs(refd), abs(sp)):
+                        # (the same rounding floor as for the integral clause: log(1 + x) of the closed forms carries an absolute error of one ulp of 1,
+                        #  i.e. 1e-16 n_m in Π, which is 1e-8 of an increment of 1e-8 n_m — thorough seeds 2 and 3 raised that as a false alarm)
+                        if abs((sp - prev[1]) - refd) > tol * max(abs(refd), abs(sp)) + 4e-15 * cap:
                             ck.fail_case({**sig, "clause": "additive"}, {"params": par, "a": prev[0], "b": p, "got": sp - prev[1], "reference": refd})
                     if prev is not None and not sp >= prev[1]:
                         ck.fail_case({**sig, "clause": "increasing"}, {"params": par, "a": prev[0], "b": p})
-                prev = (p, sp)
+                prev = (p, sp, warned)
             # zero limit
             if name not in REL_ONLY:
                 with np.errstate(all="ignore"):
@@ -141,6 +315,84 @@ def run(ck):
                     ck.fail_case({**sig, "clause": "zero"}, {"params": par, "value_at_zero": z,
                                                              "note": "n_m*theta/2 = %r" % (par.get("n_m", 0) * par.get("tht", 0) / 2)})
     ck.cov["worst_rel_err_vs_quadrature"] = {k: float(f"{v:.3g}") for k, v in worst.items()}
+
+    # ------------------------------------------------------------------ 2b. quad-based models: Π anchored AT THE ORIGIN, whole parameter box, p -> 0
+    # Π(p) = ∫_0^p n/x dx is the only primitive of n/x that tends to 0 at 0 (Origin0.lean `anchored_primitive_unique`); a primitive anchored at some
+    # ε > 0 has the right derivative and the right differences but is negative below ε and misses ∫_0^ε (`primitive_anchored_at_eps_*`).
+    worst0, n_warned, n_origin, nfail0 = {}, 0, 0, {}
+
+    def fail0(sig, detail):
+        key = (sig["model"], sig["clause"])
+        nfail0[key] = nfail0.get(key, 0) + 1
+        if nfail0[key] <= 4:           # a handful of replay files per (model, clause) is enough
+            ck.fail_case(sig, detail)
+    for name in sorted(QUADBASED):
+        for iv in range(ck.n(16, 160)):
+            par, temp = corner_params(name, rng)
+            m = make(pg, name, par, temp)
+            sig = {"model": name}
+            f = lambda x: float(m.loading(np.float64(x)))  # noqa
+            if name in REL_ONLY:
+                qs = [1e-300, 1e-30, 10 ** rng.uniform(-14, -7), 10 ** rng.uniform(-7, -3), 1e-2, rng.uniform(1e-4, 1), rng.choice([0.5, 1.0])]
+            else:
+                sc = 1.0 / (par["K"] if name == "Toth" else par["K"] / par["a"])      # pressure at which the loading leaves Henry's law
+                qs = [sc * x for x in (1e-200, 1e-30, 10 ** rng.uniform(-14, -7), 10 ** rng.uniform(-7, -3), logu(rng, 1e-2, 1e1), logu(rng, 1e1, 1e4))]
+            qs = sorted(set(qs))
+            with np.errstate(all="ignore"):
+                refs = [ref_from_origin(f, q) for q in qs]
+            full = max(refs)
+            if name == "DA" and par["m"] == 1.0:
+                # exact corner (Origin0.lean `da_m1_loading`, `da_m1_spread_eq_integral`): n = n_m p^a, Π = n_m p^a / a, a = RT/e — validates the reference itself
+                a_ = R_GAS * temp / par["e"]
+                for q, ref in zip(qs, refs):
+                    exact = par["n_m"] * q ** a_ / a_
+                    if abs(ref - exact) > 1e-9 * exact + 1e-12 * full:      # (the panels stop where e^u underflows: absolute floor)
+                        ck.broken.append({"step": "reference quadrature from the origin vs the closed form of DA at m = 1",
+                                          "what": {"params": par, "temperature": temp, "p": q, "reference": ref, "closed_form": exact}})
+                refs = [par["n_m"] * q ** a_ / a_ for q in qs]
+            prev = None
+            for q, ref in zip(qs, refs):
+                with np.errstate(all="ignore"), _warnings.catch_warnings(record=True) as wlist:
+                    _warnings.simplefilter("always")
+                    try:
+                        sp = float(m.spreading_pressure(np.float64(q)))
+                    except Exception as e:  # noqa
+                        fail0({**sig, "clause": "evaluates"}, {"params": par, "temperature": temp, "p": q, "error": repr(e)})
+                        continue
+                warned = any(isinstance(w.message, IntegrationWarning) for w in wlist)
+                n_warned += warned
+                n_origin += 1
+                ck.count(("origin", name, q, temp, tuple(par.values())), bucket="origin-anchored:" + name,
+                         sample={"model": name, "params": par, "temperature": temp, "p": q, "spreading_pressure": sp, "reference_from_origin": ref} if iv == 0 and prev is None else None)
+                detail = {"params": par, "temperature": temp, "p": q, "got": sp, "reference_from_origin": ref, "reference_at_largest_p": full,
+                          "quad_warned": bool(warned)}
+                # tolerance: scipy quad at its defaults (epsabs = epsrel = 1.49e-8) on a singular integrand; measured on the unchanged tree over
+                # 2e5 (model, parameters, p) without IntegrationWarning: |Π - ref| <= 0.7 (1e-4 |ref| + 1e-7) for DR, <= 0.25 of it for the others
+                tol = 2e-4 * abs(ref) + 2e-7
+                dev = abs(sp - ref)
+                if not (sp == sp) or sp < -1e-12 * full:
+                    fail0({**sig, "clause": "non-negative"}, detail)
+                elif dev > tol:
+                    # quad itself reported that it did not converge and returned its estimate anyway: S37 envelope, otherwise a failing input
+                    if not (warned and quad_nonconvergence(name, sig, detail, dev, full)):
+                        fail0({**sig, "clause": "integral from the origin"}, detail)
+                elif not warned:
+                    worst0[name] = max(worst0.get(name, 0), dev / (1e-4 * abs(ref) + 1e-7))
+                if prev is not None and sp < prev - tol and not warned:
+                    fail0({**sig, "clause": "increasing"}, {**detail, "value_at_smaller_p": prev})
+                prev = sp
+            # the value AT zero pressure
+            with np.errstate(all="ignore"), _warnings.catch_warnings():
+                _warnings.simplefilter("ignore")
+                try:
+                    z = float(m.spreading_pressure(np.float64(0.0)))
+                except Exception as e:  # noqa
+                    z = repr(e)
+            if z != 0.0:
+                fail0({**sig, "clause": "zero"}, {"params": par, "temperature": temp, "value_at_zero": z})
+    ck.cov["quad_nonconvergence_DR_not_alarmed"] = suppressed
+    ck.cov["origin_anchored"] = {"cases": n_origin, "with_IntegrationWarning": n_warned,
+                                 "worst_deviation_over_(1e-4|ref|+1e-7)_without_warning": {k: float(f"{v:.3g}") for k, v in worst0.items()}}
 
     # ------------------------------------------------------------------ 3. point isotherms: fold model (ℚ) vs the real method
     nset = ck.n(30, 150)
@@ -243,6 +495,134 @@ def run(ck):
             if again != got:
                 ck.fail_case({**sig, "clause": "same value after other queries"}, {"pressures": ps, "loadings": ls, "query": q, "first": got, "after": again})
 
+    # ------------------------------------------------------------------ 3b. point isotherms: small / closely spaced pressures, queries a hair off the knots,
+    #                                                                        in every pressure unit and mode of data and query
+    # Π is invariant under a change of the pressure unit (Scale.lean `spreadPoint_scale`) and continuous across the knots (`spreadPoint_at_knot`):
+    # the exact-rational fold run on the data AS CONVERTED to the unit of the query is the prediction, whatever the magnitudes of the numbers.
+    p0_pa = float(pg.Adsorbate.find("N2").saturation_pressure(77.355, unit="Pa"))
+    reqs2, ctx2 = [], []
+    for i in range(ck.n(24, 150)):
+        native = rng.choice(REPS)
+        ps = dense_pressures(rng)
+        if len(ps) < 2:
+            continue
+        clustered = any(b - a < 1e-3 * a for a, b in zip(ps, ps[1:]))
+        shape = smooth_loading(rng)
+        ls = [shape(x / ps[len(ps) // 2]) for x in ps]
+        if not clustered and rng.random() < 0.4:
+            # rough data: any increasing loadings (closely spaced points keep the smooth shape: a loading step Δl across a relative pressure
+            # step δ is evaluated by the library's own formula with an error Δl·1e-16/δ, which is conditioning, not a defect)
+            ls = list(np.cumsum([rng.uniform(0.01, 2) for _ in ps]))
+        ls = [float(l) for l in ls]
+        if not all(b > a for a, b in zip(ls, ls[1:])) or ls[0] <= 0:
+            continue
+        iso = pg.PointIsotherm(pressure=ps, loading=ls, material="pgv_m", adsorbate="N2", temperature=77.355, temperature_unit="K",
+                               pressure_mode=native[0], pressure_unit=native[1], loading_basis="molar", loading_unit="mmol",
+                               material_basis="mass", material_unit="g")
+        if rng.random() < 0.25:
+            # an isotherm that has been converted permanently before it is queried: the converted data are the stored data from now on
+            target = rng.choice([r for r in REPS if r != native])
+            try:
+                iso.convert_pressure(mode_to=target[0], unit_to=target[1])
+                ps_new = [float(x) for x in iso.pressure(branch="ads")]
+            except Exception as e:  # noqa
+                ck.fail_case({"class": "PointIsotherm", "clause": "unit arguments converted first", "outcome": err_class(e)},
+                             {"pressures": ps, "stored_in": native, "convert_pressure_to": target, "error": repr(e)})
+                continue
+            if not all(b > a for a, b in zip(ps_new, ps_new[1:])):
+                continue
+            native, ps = target, ps_new
+        f_nat = rep_factor(native, p0_pa)
+        reps = [native] + rng.sample([r for r in REPS if r != native], 2)
+        for rep in reps:
+            foreign = rep != native
+            kw = dict(pressure_mode=rep[0], pressure_unit=rep[1]) if foreign or rng.random() < 0.3 else {}
+            try:
+                P = [float(x) for x in iso.pressure(branch="ads", pressure_mode=rep[0], pressure_unit=rep[1])] if foreign else list(ps)
+            except Exception as e:  # noqa
+                ck.fail_case({"class": "PointIsotherm", "clause": "unit arguments converted first", "outcome": err_class(e)},
+                             {"pressures": ps, "native": native, "requested": rep, "error": repr(e)})
+                continue
+            if not all(b > a for a, b in zip(P, P[1:])):
+                continue          # the conversion merged two neighbours (1-ulp spacing): no longer increasing data in this unit
+            qs = [P[0] * rng.uniform(0.01, 0.99), P[0], P[-1]] + [math.exp(rng.uniform(math.log(P[0]), math.log(P[-1]))) for _ in range(2)]
+            for kk in rng.sample(range(len(P)), min(len(P), 4)):
+                pk = P[kk]
+                eps = logu(rng, 1e-15, 1e-5)
+                qs += [pk, pk * (1 + eps), pk * (1 - eps), pk * (1 + 1e-12), pk * (1 - 1e-12), pk + 1e-9, pk - 1e-9, pk + logu(rng, 1e-11, 1e-7),
+                       float(np.nextafter(pk, np.inf)), float(np.nextafter(pk, 0.0))]
+            # TODO(candidate defect, reported): with a FOREIGN unit/mode the unchanged spreading_pressure_at raises scipy's ValueError ("above the
+            # interpolation range") for queries at (or one ulp below) the last data point: loading_at converts the query back to the unit of the data and the
+            # round trip lands one ulp above the data.  Until that is repaired foreign-unit queries stay 1e-12 (relative) inside the ends of the data.
+            hi = P[-1] * (1 - 1e-12) if foreign else P[-1]
+            qs = sorted({q for q in qs if 0 < q <= hi and not (foreign and abs(q - P[0]) < 1e-12 * P[0] and q != P[0])})
+            for q in qs:
+                req, k = fold_request(P, ls, q)
+                reqs2.append(req)
+                ctx2.append((iso, native, rep, kw, P, ls, q, k, q * rep_factor(rep, p0_pa) / f_nat, ps))
+    try:
+        reps2 = ck.drive("SpreadPoint", reqs2)
+    except Exception as e:
+        reps2 = None
+        ck.broken.append({"step": "driver SpreadPoint (dense)", "what": str(e)[:500]})
+    n_dis2, worst_pt, nfail = 0, {"reference": 0.0, "fold": 0.0, "unit": 0.0}, {}
+
+    def fail_pt(clause, detail, **more):
+        nfail[clause] = nfail.get(clause, 0) + 1
+        if nfail[clause] <= 4:
+            ck.fail_case({"class": "PointIsotherm", "clause": clause, **more}, detail)
+
+    last = None          # (iso, rep) -> previous (q, Π) of the same isotherm in the same representation, queries increasing
+    for idx, (iso, native, rep, kw, P, ls, q, k, q_nat, ps) in enumerate(ctx2):
+        detail = {"pressures_as_stored": ps, "stored_in": native, "loadings": ls, "query": q, "query_in": rep, "keyword_arguments": kw,
+                  "pressures_in_unit_of_query": P}
+        try:
+            got = float(iso.spreading_pressure_at(q, **kw))
+        except Exception as e:  # noqa
+            fail_pt("integral of the interpolant", {**detail, "got": repr(e)}, outcome=err_class(e))
+            last = None
+            continue
+        ref = exact_ref(P, ls, q)
+        ck.count(("point-dense", tuple(ps), native, rep, q), bucket="point-dense:" + ("native" if rep == native else "foreign") + f":k={min(k, 3)}",
+                 sample={**detail, "implementation": got, "reference": ref, "model": reps2[idx][:60] if reps2 else None} if idx % 997 == 0 else None)
+        worst_pt["reference"] = max(worst_pt["reference"], abs(got - ref) / abs(ref))
+        if not abs(got - ref) <= 1e-9 * abs(ref):
+            fail_pt("integral of the interpolant", {**detail, "got": got, "reference": ref})
+            last = None
+            continue
+        if reps2 is not None:
+            r = reps2[idx].split()
+            if r[0] == "ok":
+                worst_pt["fold"] = max(worst_pt["fold"], abs(got - float(Fr(r[1]))) / abs(ref))
+            if not (r[0] == "ok" and close(got, Fr(r[1]), rel=1e-10)):
+                n_dis2 += 1
+                if n_dis2 <= 3:
+                    ck.broken.append({"step": "correspondence Model/SpreadPoint.lean (dense)", "what": {"request": reqs2[idx][:300], "model": reps2[idx][:80], "implementation": got}})
+        # the same pressure given in the unit of the data
+        if rep != native and ps[0] * 1e-3 < q_nat <= ps[-1] * (1 - 1e-12):
+            try:
+                nat = float(iso.spreading_pressure_at(q_nat))
+            except Exception as e:  # noqa
+                nat = None
+            if nat is not None:
+                worst_pt["unit"] = max(worst_pt["unit"], abs(nat - got) / abs(nat))
+                if not abs(nat - got) <= 1e-9 * abs(nat):
+                    fail_pt("unit arguments converted first", {**detail, "got": got, "same_pressure_in_unit_of_data": q_nat, "got_there": nat})
+        # increments: Π(b) - Π(a) = ∫_a^b n dln p lies between min n and max n on [a, b] times ln(b/a)
+        if last is not None and last[0] is iso and last[1] == rep and q > last[2]:
+            a, pa = last[2], last[3]
+            fp, fl = [frac(x) for x in P], [frac(x) for x in ls]
+            vals = [interp_exact(fp, fl, frac(a)), interp_exact(fp, fl, frac(q))] + [fl[j] for j in range(len(P)) if a < P[j] < q]
+            lnr = math.log1p((q - a) / a)
+            lo_b, hi_b = float(min(vals)) * lnr, float(max(vals)) * lnr
+            slack = 1e-6 * hi_b + 1e-12 * abs(got)
+            if not (lo_b - slack <= got - pa <= hi_b + slack):
+                fail_pt("increment between min and max loading times d ln p", {**detail, "previous_query": a, "previous_value": pa, "got": got,
+                                                                               "increment": got - pa, "bounds": [lo_b, hi_b]})
+        last = (iso, rep, q, got)
+    ck.cov["point_dense"] = {"cases": len(ctx2), "correspondence_disagreements": n_dis2,
+                             "worst_relative_deviation": {k: float(f"{v:.3g}") for k, v in worst_pt.items()}}
+
     # ------------------------------------------------------------------ 4. model isotherm: foreign units / modes converted first
     for name in ("Langmuir", "Toth"):
         par = sample_params(name, rng)
@@ -271,6 +651,42 @@ def run(ck):
                 if isinstance(alt, tuple) or relerr(alt, base) > 1e-10:
                     ck.fail_case({"class": "ModelIsotherm", "clause": "mode arguments converted first", "mode": mode,
                                   "outcome": alt[1] if isinstance(alt, tuple) else "number"}, {"params": par, "native": base, "relative%": alt})
+    # 4b. every unit / mode of the query, every unit / mode of the stored model (DR/DA: stored in relative pressure, reached through the isotherm)
+    worst_mi = 0.0
+    for it in range(ck.n(8, 60)):
+        name = rng.choice(["Langmuir", "Toth", "DR", "DA"])
+        par = sample_params(name, rng)
+        temp = 77.355
+        if name in REL_ONLY:
+            native = ("relative", None)
+            par["e"] = R_GAS * temp / logu(rng, 0.2, 3.0)
+            q_nat = logu(rng, 1e-4, 1.0)
+        else:
+            native = rng.choice(REPS)
+            q_nat = logu(rng, 1e-3, 1e1) / par["K"]
+        model = make(pg, name, par, temp)
+        miso = pg.ModelIsotherm(material="pgv_m", adsorbate="N2", temperature=temp, temperature_unit="K", model=model, pressure_mode=native[0],
+                                pressure_unit=native[1], loading_basis="molar", loading_unit="mmol", material_basis="mass", material_unit="g")
+        with np.errstate(all="ignore"):
+            bare = float(model.spreading_pressure(np.float64(q_nat)))
+        for rep in [native] + rng.sample([r for r in REPS if r != native], 3):
+            q = q_nat * rep_factor(native, p0_pa) / rep_factor(rep, p0_pa)
+            try:
+                with np.errstate(all="ignore"):
+                    got = float(miso.spreading_pressure_at(q, pressure_mode=rep[0], pressure_unit=rep[1]))
+            except Exception as e:  # noqa
+                got = ("err", err_class(e))
+            ck.count(("miso-units", name, native, rep, q_nat, tuple(par.values())), bucket="model-isotherm:units:" + name)
+            # conversion there and back moves the pressure by a few ulp; quad-based models answer a moved upper limit to within their own tolerance
+            tol_mi = 1e-7 if name in QUADBASED else 1e-10
+            if not isinstance(got, tuple):
+                worst_mi = max(worst_mi, relerr(got, bare) / tol_mi)
+            if isinstance(got, tuple) or abs(got - bare) > tol_mi * abs(bare) + (2e-8 if name in QUADBASED else 0.0):      # (quad's epsabs = 1.49e-8)
+                ck.fail_case({"class": "ModelIsotherm", "clause": "unit arguments converted first", "mode": native[0],
+                              "outcome": got[1] if isinstance(got, tuple) else "number"},
+                             {"model": name, "params": par, "stored_in": native, "pressure_in_stored_unit": q_nat, "bare_model": bare,
+                              "query": q, "query_in": rep, "through_isotherm": got})
+    ck.cov["model_isotherm_units_worst_over_tolerance"] = float(f"{worst_mi:.3g}")
     # the same across pressure MODES for isotherms stored in °C (the saturation pressure must be taken at the kelvin temperature)
     for name in ("Langmuir", "Toth"):
         par = sample_params(name, rng)
@@ -292,8 +708,17 @@ def run(ck):
                               "outcome": alt[1] if isinstance(alt, tuple) else "number"}, {"params": par, "adsorbate": ads_name, "t_celsius": t_c, "bare_at_converted_pressure": base, "relative": alt, "relative%": alt2})
     ck.cov["correspondence_disagreements"] = n_dis
     ck.cov["rule"] = ("closed-form Float copies vs Python; 13 models x seeded parameter vectors x pressures: Π vs composite Gauss-Legendre (log substitution) "
-                      "of the class's own loading/x, differences, zero; point isotherms: seeded increasing pressure grids (2-14 points, optional desorption branch) x "
+                      "of the class's own loading/x, differences, zero; quad-based models (Toth, Jensen-Seaton, DR, DA) over the parameter box with its corners "
+                      "(a = RT/e down to 0.083, m = 1 / near 1 / 3, heterogeneity exponents down to 0.1), p from 1e-300 to the validity range: Π vs the integral "
+                      "anchored at the origin (u = ln p panels down to underflow; DA m = 1 in closed form), non-negative, non-decreasing, zero at 0; "
+                      "point isotherms: seeded increasing pressure grids (2-14 points, optional desorption branch) x "
                       "queries below/at/inside/at the edge: real method vs exact-rational fold model and vs per-segment quadrature, after cubic/desorption "
-                      "queries, with unit arguments; distinct = distinct (model, parameters, pressure) or (data set, query)")
-    ck.assumptions += ["scipy.integrate.quad for Toth/Jensen-Seaton/DR/DA: compared with an independent quadrature (rel 1e-4)",
+                      "queries, with unit arguments; dense point isotherms: pressures 1e-9 … 1e5 in all 8 units and both relative modes, neighbours 1e-9 relative / "
+                      "1e-10 absolute apart, queries at, one ulp / 1e-15 … 1e-5 relative / 1e-11 … 1e-7 absolute above and below knots, in the unit of the data and "
+                      "in two other units/modes: real method vs the exact-rational fold on the converted data, vs an exact-rational reference, vs the same "
+                      "pressure in the unit of the data, increments between min and max loading x d ln p; model isotherms stored and queried in every unit/mode; "
+                      "distinct = distinct (model, parameters, pressure) or (data set, unit, query)")
+    ck.assumptions += ["scipy.integrate.quad for Toth/Jensen-Seaton/DR/DA: compared with an independent quadrature (rel 1e-4); anchored at the origin: 2e-4 |Π| + 2e-7 "
+                       "(quad's default epsabs = epsrel = 1.49e-8 on a singular integrand; measured <= 0.7 (1e-4 |Π| + 1e-7) whenever quad does not warn)",
+                       "DR/DA: a = RT/e >= 0.083 (below that the unchanged library is inaccurate: reported, S37 is its mild end)",
                        "numpy.log vs the logarithm inputs of the fold model: 1 ulp"]
